@@ -13,7 +13,8 @@ inline bool framesComplete(const ezc3d::c3d &o, std::string *why = nullptr) {
     for (size_t f = 0; f < o.data().nbFrames(); ++f) {
         const auto &fr = o.data().frame(f);
         if (fr.points().nbPoints() != s.nP) { if (why) *why = "frame " + std::to_string(f) + " has " + std::to_string(fr.points().nbPoints()) + " points, declared " + std::to_string(s.nP); return false; }
-        if (fr.analogs().nbSubframes() != wantSub) { if (why) *why = "frame " + std::to_string(f) + " sub-frames"; return false; }
+        // (an object loaded from a file without channels holds sub-frames without channels: they carry no sample)
+        if (s.nC != 0 && fr.analogs().nbSubframes() != wantSub) { if (why) *why = "frame " + std::to_string(f) + " sub-frames"; return false; }
         for (size_t k = 0; k < fr.analogs().nbSubframes(); ++k)
             if (fr.analogs().subframe(k).nbChannels() != s.nC) { if (why) *why = "frame " + std::to_string(f) + " channels"; return false; }
     }
@@ -88,6 +89,28 @@ inline SnapFacts factsOf(const Snap &s) {
         }
     }
     return f;
+}
+
+// "a refused Parameter::set leaves the parameter as it was": redo the refused set on parameters that already hold a value
+// (of each type), returns "" when they are left unchanged
+inline std::string refusedSetLeavesParameterUnchanged(const ParamSpec &sp) {
+    for (int holder = 0; holder < 3; ++holder) {
+        ezc3d::ParametersNS::GroupNS::Parameter p("keep", "d");
+        if (holder == 0) p.set(std::vector<int>() = {7, 8, 9}, {3});
+        else if (holder == 1) p.set(std::vector<float>() = {1.5f, -2.f}, {1, 2});
+        else p.set(std::vector<std::string>() = {"ab", "c", "def"}, {3, 1});
+        p.lock();
+        SParam before = takeParam(p);
+        bool threw = false;
+        try {
+            if (sp.type == 0) p.set(sp.ints, sp.dims);
+            else if (sp.type == 1) { std::vector<float> v; for (auto b : sp.floats) v.push_back(bitsToFloat(b)); p.set(v, sp.dims); }
+            else p.set(sp.strs, sp.dims);
+        } catch (const std::range_error &) { threw = true; }
+        if (!threw) return "a second, identical refused set did not throw range_error";
+        if (paramText(before) != paramText(takeParam(p))) return "a refused set changed the parameter it was called on: was " + paramText(before).substr(0, 200) + ", now " + paramText(takeParam(p)).substr(0, 200);
+    }
+    return "";
 }
 
 struct CountingListener : Listener {
